@@ -2158,19 +2158,37 @@ class KmipEngine(object):
         # TODO (peterhamilton): Pull cryptographic parameters from the keying
         # object if none are provided with the payload
         crypto_parameters = derivation_parameters.cryptographic_parameters
-        derived_data = self._cryptography_engine.derive_key(
-            derivation_method=payload.derivation_method,
-            derivation_length=derivation_length,
-            derivation_data=derivation_data,
-            key_material=keying_object.value,
-            hash_algorithm=crypto_parameters.hashing_algorithm,
-            salt=derivation_parameters.salt,
-            iteration_count=derivation_parameters.iteration_count,
-            encryption_algorithm=crypto_parameters.cryptographic_algorithm,
-            cipher_mode=crypto_parameters.block_cipher_mode,
-            padding_method=crypto_parameters.padding_method,
-            iv_nonce=iv
-        )
+        if crypto_parameters is None:
+            raise exceptions.InvalidField(
+                "The cryptographic parameters must be provided in the "
+                "derivation parameters."
+            )
+        try:
+            derived_data = self._cryptography_engine.derive_key(
+                derivation_method=payload.derivation_method,
+                derivation_length=derivation_length,
+                derivation_data=derivation_data,
+                key_material=keying_object.value,
+                hash_algorithm=crypto_parameters.hashing_algorithm,
+                salt=derivation_parameters.salt,
+                iteration_count=derivation_parameters.iteration_count,
+                encryption_algorithm=crypto_parameters.cryptographic_algorithm,
+                cipher_mode=crypto_parameters.block_cipher_mode,
+                padding_method=crypto_parameters.padding_method,
+                iv_nonce=iv
+            )
+        except exceptions.KmipError:
+            raise
+        except Exception as e:
+            # Errors raised by the key derivation functions of the
+            # cryptographic backend (e.g., missing derivation data, a
+            # derivation length the function cannot produce).
+            self._logger.warning(
+                "The key derivation failed: {0}".format(type(e).__name__)
+            )
+            raise exceptions.CryptographicFailure(
+                "The key could not be derived with the specified parameters."
+            )
 
         if derivation_length > len(derived_data):
             raise exceptions.CryptographicFailure(
